@@ -390,6 +390,10 @@ fn part_c<T: Probe>(src: &dyn Source, cx: &mut Cx, bad: &BTreeSet<String>, local
 }
 
 /// `local`: also run part A on a LocalAssetCache; `bc_local`: parts B and C on LocalAssetCaches.
+///
+/// Parts B and C exercise `dirs.rs` + the cache on top of a listing that part A has just compared
+/// with the oracle; they run on one representative per source kind (fs, embedded, and the sorted,
+/// plain-named in-memory archive of each of zip/tar x {dir members, none}), not on every member order.
 fn one_type<T: Probe>(src: &dyn Source, v: &Variant, o: &Oracle, qdirs: &[String], rep: &mut Rep, local: bool, bc_local: bool) -> u64 {
     let mut n = 1;
     let bad = {
@@ -402,6 +406,10 @@ fn one_type<T: Probe>(src: &dyn Source, v: &Variant, o: &Oracle, qdirs: &[String
         let mut cx = Cx { v, o, rep, cache_name: "LocalAssetCache" };
         part_a::<T>(cache.as_any_cache(), &mut cx, qdirs);
         n += 1;
+    }
+    let representative = !v.is_archive() || (v.order == "sorted" && !v.prefix && v.backing == "mem");
+    if !representative {
+        return n;
     }
     let mut cx = Cx { v, o, rep, cache_name: if bc_local { "LocalAssetCache" } else { "AssetCache" } };
     part_b::<T>(src, &mut cx, &bad, bc_local);
@@ -424,7 +432,7 @@ pub fn query_dirs(t: &Tree) -> Vec<String> {
 }
 
 pub fn run_case(case: &Case, res: &mut SubResult) -> Result<(), String> {
-    let t = Tree::instantiate(&case.shape, case.name_rot, case.content_rot);
+    let t = Tree::instantiate(&case.shape, case.name_rot, case.content_rot, true);
     let full = Oracle::from_tree(&t, false);
     let pruned = Oracle::from_tree(&t, true);
     let qdirs = query_dirs(&t);
